@@ -84,8 +84,10 @@ type FilterConfig struct {
 
 // cacheItem represents an item that we will store in the cache.
 type cacheItem struct {
-	// res is the filtering result.
-	res internal.Result
+	// matched is the matched hostname, or an empty string if the host is not
+	// matched.  The result itself is built anew for every request, since it
+	// depends on the request and on the requester's message constructor.
+	matched string
 
 	// host is the cached normalized hostname for later cache key collision
 	// checks.
@@ -102,9 +104,10 @@ type Filter struct {
 	errColl  errcoll.Interface
 	metrics  internal.Metrics
 	resCache agdcache.Interface[internal.CacheKey, *cacheItem]
-	id       internal.ID
-	repIP    netip.Addr
-	repFQDN  string
+
+	id      internal.ID
+	repIP   netip.Addr
+	repFQDN string
 }
 
 // IDPrefix is a common prefix for cache IDs, logging, and refreshes of
@@ -132,7 +135,8 @@ func NewFilter(c *FilterConfig) (f *Filter, err error) {
 		errColl:  c.ErrColl,
 		metrics:  c.Metrics,
 		resCache: resCache,
-		id:       id,
+
+		id: id,
 	}
 
 	repHost := c.ReplacementHost
@@ -178,12 +182,14 @@ func (f *Filter) FilterRequest(
 	cacheKey := internal.NewCacheKey(host, qt, cl, false)
 	item, ok := f.itemFromCache(ctx, cacheKey, host)
 	f.updateCacheLookupsMetrics(ok)
+	fam, filterable := isFilterable(qt)
 	if ok {
-		return f.clonedResult(req.DNS, item.res), nil
-	}
+		if item.matched == "" || !filterable {
+			return nil, nil
+		}
 
-	fam, ok := isFilterable(qt)
-	if !ok {
+		return f.filteredResult(req, item.matched, fam)
+	} else if !filterable {
 		return nil, nil
 	}
 
@@ -199,8 +205,8 @@ func (f *Filter) FilterRequest(
 
 	if matched == "" {
 		f.resCache.Set(cacheKey, &cacheItem{
-			res:  nil,
-			host: host,
+			matched: "",
+			host:    host,
 		})
 
 		return nil, nil
@@ -212,7 +218,10 @@ func (f *Filter) FilterRequest(
 		return nil, err
 	}
 
-	f.setInCache(cacheKey, r, host)
+	f.resCache.Set(cacheKey, &cacheItem{
+		matched: matched,
+		host:    host,
+	})
 
 	f.updateCacheSizeMetrics(f.resCache.Len())
 
@@ -257,21 +266,6 @@ func isFilterable(qt dnsmsg.RRType) (fam netutil.AddrFamily, ok bool) {
 	fam = netutil.AddrFamilyFromRRType(qt)
 
 	return fam, fam != netutil.AddrFamilyNone
-}
-
-// clonedResult returns a clone of the result based on its type.  r must be nil,
-// [*internal.ResultModifiedRequest], or [*internal.ResultModifiedResponse].
-func (f *Filter) clonedResult(req *dns.Msg, r internal.Result) (clone internal.Result) {
-	switch r := r.(type) {
-	case nil:
-		return nil
-	case *internal.ResultModifiedRequest:
-		return r.Clone(f.cloner)
-	case *internal.ResultModifiedResponse:
-		return r.CloneForReq(f.cloner, req)
-	default:
-		panic(fmt.Errorf("hashprefix: unexpected type for result: %T(%[1]v)", r))
-	}
 }
 
 // filteredResult returns a filtered request or response.
@@ -333,29 +327,6 @@ func (f *Filter) respForFamily(
 		req.Messages.AddEDE(req.DNS, resp, dns.ExtendedErrorCodeFiltered)
 
 		return resp, nil
-	}
-}
-
-// setInCache sets r in cache.  It clones the result to make sure that
-// modifications to the result message down the pipeline don't interfere with
-// the cached value.  r must be either [*internal.ResultModifiedRequest] or
-// [*internal.ResultModifiedResponse].
-//
-// See AGDNS-359.
-func (f *Filter) setInCache(k internal.CacheKey, r internal.Result, host string) {
-	switch r := r.(type) {
-	case *internal.ResultModifiedRequest:
-		f.resCache.Set(k, &cacheItem{
-			res:  r.Clone(f.cloner),
-			host: host,
-		})
-	case *internal.ResultModifiedResponse:
-		f.resCache.Set(k, &cacheItem{
-			res:  r.Clone(f.cloner),
-			host: host,
-		})
-	default:
-		panic(fmt.Errorf("hashprefix: unexpected type for result: %T(%[1]v)", r))
 	}
 }
 
